@@ -27,7 +27,7 @@ MANIFEST = dict(
          'identifier filters, callback order shuffled, timer jitter): the observed order of arrivals, consumer pops, handler returns and main-loop polls is fed to the model driver and the '
          'spas in order, return time, closed endpoint, consumer fate, found flag and queue length are compared; the threaded twin\'s '
          '_on_discovered is compared against its own model function; direct monitors on the real locator.'
-         " Since session 3: identifier + foreign static address filters; a direct oracle on the blocking locator (each spa once, first reply's fields). Session 4: the blocking locator runs for real (its engine and retry threads, its waiting loop, a scripted OS socket, scaled waits) and the time at which start_discovery(True) returns is checked for five reply patterns. State inventory of both discovery callbacks (discovery_state_inventory). Discovery inside an entered task manager with the housekeeping task woken at every loop step around its start.",
+         " Since session 3: identifier + foreign static address filters; a direct oracle on the blocking locator (each spa once, first reply's fields). Session 4: the blocking locator runs for real (its engine and retry threads, its waiting loop, a scripted OS socket, scaled waits) and the time at which start_discovery(True) returns is checked for five reply patterns. State inventory of both discovery callbacks (discovery_state_inventory). Discovery inside an entered task manager with the housekeeping task woken at every loop step around its start. Round 14: discovery through GeckoAsyncSpaMan.async_locate_spas, several times per manager, filtered / unfiltered, across resets.",
     note='Partial: the timing clauses are theorems about the lockstep tick model; real timer skew is outside (jittered runs are still '
          'compared exactly because the model accepts any schedule, and the monitors bound the return time by the skew). Hypothesis kept '
          'visible: spa identifiers contain no "|" and do not start with IOS/AND (true of SPA+MAC identifiers; id_hypothesis_needed shows '
@@ -788,6 +788,81 @@ D2_SCRIPT = {"responders": [_resp(1, b"Pool|Spa", {"0": [100]})], "arrivals": []
              "sched": {"seed": 0, "shuffle": False, "jitter_ms": 0}}
 
 
+def run_manager_discoveries(plan):
+    """discovery as the REAL CLIENT runs it: `GeckoAsyncSpaMan.async_locate_spas` (its own wiring of locator, task manager and
+    events) against the real simulator on the virtual network, SEVERAL times on one manager - unfiltered, filtered, again after a
+    reset - the way the sequence pump and the reconnect button do. plan = [("locate", address|None, identifier|None) | ("reset",)]"""
+    import fakenet
+    import vloop
+    from geckolib import GeckoAsyncSpaMan
+    from props import c10
+    out = []
+
+    async def body(loop):
+        class Man(GeckoAsyncSpaMan):
+            async def handle_event(self, event, **kw):
+                pass
+        sim = fakenet.make_sim(c10.SNAP)
+        loop.network = fakenet.Network(loop, sim, phases=[], seed=1)
+        m = Man("uuid-1", spa_identifier=None, spa_address=None, spa_name=None)      # nothing configured: the pump stays idle
+        await m.__aenter__()
+        for step in plan:
+            if step[0] == "reset":
+                await m.async_reset()
+                out.append({"step": "reset"})
+                continue
+            t0 = loop.time()
+            rec = {"step": list(step)}
+            try:
+                found = await asyncio.wait_for(m.async_locate_spas(step[1], step[2]), 60)
+                rec["spas"] = [[d.identifier_as_string, d.name, d.ipaddress] for d in (found or [])]
+            except Exception as e:  # noqa
+                rec["raised"] = f"{type(e).__name__}: {e}"
+            rec["took_s"] = round(loop.time() - t0, 2)
+            await asyncio.sleep(0.3)
+            rec["open_endpoints"] = sum(1 for t in loop.transports if not t.closed)
+            rec["loc_tasks"] = sorted(t.get_name() for t in asyncio.all_tasks() if t.get_name().startswith("LOC:") and not t.done())
+            out.append(rec)
+        await m.__aexit__(None, None, None)
+    vloop.run_virtual(body, stable=True)
+    return out
+
+
+MANAGER_PLANS = [
+    [("locate", None, None), ("locate", "10.0.0.9", None), ("reset",), ("locate", None, None), ("locate", "10.0.0.9", None), ("locate", "10.0.0.9", None)],
+    [("locate", None, "IDENT"), ("locate", None, "IDENT"), ("reset",), ("locate", None, "IDENT"), ("locate", None, None)],
+    [("locate", "10.0.0.9", "IDENT"), ("reset",), ("locate", "10.0.0.9", "IDENT"), ("reset",), ("locate", "10.0.0.9", "IDENT")],
+]
+
+
+def check_manager_discoveries(ctx, only=None):
+    import geckolib.config as cfg
+    from props import c10
+    for pi, plan in enumerate(MANAGER_PLANS):
+        if only is not None and pi != only:
+            continue
+        plan = [tuple(c10.IDENT if x == "IDENT" else x for x in st) for st in plan]
+        try:
+            recs = run_manager_discoveries(plan)
+        except Exception as e:  # noqa
+            ctx.violation(f"manager-discovery:raised:{pi}", {"kind": "manager-discovery", "plan": pi}, "the discoveries run", f"{type(e).__name__}: {e}")
+            continue
+        limit = cfg.GeckoConfig.DISCOVERY_TIMEOUT_IN_SECONDS + 1.5
+        for k, r in enumerate(recs):
+            if r["step"] == "reset":
+                continue
+            ctx.count("evaluations")
+            ctx.hist("manager_discoveries", "filtered" if (r["step"][1] or r["step"][2]) else "unfiltered")
+            ok = (r.get("spas") is not None and len(r["spas"]) == 1 and r["spas"][0][0] == c10.IDENT and r["spas"][0][2] == "10.0.0.9"
+                  and r["took_s"] <= limit and r["open_endpoints"] == 0 and not r["loc_tasks"])
+            if not ok:
+                ctx.violation(f"manager-discovery:{'filtered' if (r['step'][1] or r['step'][2]) else 'unfiltered'}:run-{k}",
+                              {"kind": "manager-discovery", "plan": pi, "steps": [list(x) for x in plan[:k + 1]]},
+                              f"the one spa on the network is listed once (identifier {c10.IDENT}, address 10.0.0.9) within {limit} s; endpoint closed, no LOC task left",
+                              {k2: r.get(k2) for k2 in ("spas", "raised", "took_s", "open_endpoints", "loc_tasks")})
+                break
+
+
 def run(ctx):
     st = translate.run(["ConfigTables", "Skeletons"])
     ctx.cov["translator"] = st
@@ -838,6 +913,10 @@ def run(ctx):
     check_sync(ctx, 200 if ctx.quick else 8000)
     check_sync_real(ctx)
     check_tidy_wakes(ctx)
+    try:
+        check_manager_discoveries(ctx)
+    except Exception as e:  # noqa
+        ctx.obligation_broken("harness:manager-discoveries", f"{type(e).__name__}: {e}")
     fam, script, res = runs[2]
     ctx.sample({"script": {k: script[k] for k in ("responders", "filter", "suspend_ms", "sched")},
                 "observed": {k: res.get(k) for k in ("spas", "ret_ms", "consumer", "found")}, "log_head": res.get("log", [])[:8]})
@@ -852,6 +931,11 @@ def run(ctx):
 
 
 def replay(inp):
+    if inp.get("kind") == "manager-discovery":
+        from common import Ctx
+        c = Ctx("C15", "quick", 0)
+        check_manager_discoveries(c, only=inp["plan"])
+        return bool(c.violations), c.violations[0]["observed"] if c.violations else "every run listed the spa"
     if inp.get("kind") == "import":
         try:
             import geckolib.async_locator, geckolib.locator, geckolib.config, geckolib.async_tasks  # noqa
